@@ -125,6 +125,31 @@ func checkC02With(p *cparsers.ExpressionParser, c c02Case) *evid.Fail {
 			return evid.F("callers-token-list-changed", "input %q: ParseTokens changed the list it was given (%d tokens before, %d after)", src, len(listBefore), len(callerList))
 		}
 	}
+	if c.ViaToken && len(src)%4 == 0 {
+		// the text made of the values of that list (no separators), submitted to the same parser right after the list:
+		// it is parsed as the text it is - what a parser that never saw the list makes of it
+		var concat strings.Builder
+		for _, t := range callerList {
+			concat.WriteString(t.Value())
+		}
+		var errU, errF error
+		var progU, progF []string
+		if g := guard(func() {
+			errU = p.ParseString(concat.String())
+			progU = actualRPN(p.ResultTokens())
+			fresh := cparsers.NewExpressionParser()
+			errF = fresh.ParseString(concat.String())
+			progF = actualRPN(fresh.ResultTokens())
+			err2 = p.ParseTokens(callerList) // back to the list for the checks below
+		}); g != nil {
+			g.Sig = "text-after-tokens:" + g.Sig
+			g.Msg = fmt.Sprintf("token list %q, then its text %q: %s", src, concat.String(), g.Msg)
+			return g
+		}
+		if (errU == nil) != (errF == nil) || (errU == nil && strings.Join(progU, " ") != strings.Join(progF, " ")) {
+			return evid.F("text-after-tokens-differs", "a parser that was given the token list %q and then the text %q gives %v %v for the text; a parser that never saw the list gives %v %v", src, concat.String(), errU, progU, errF, progF)
+		}
+	}
 	if c.Spelt != "" {
 		p3 := p
 		var err3 error
